@@ -27,6 +27,7 @@ import numpy as np
 
 from common import err_kind, frac_token, lst
 
+CORPUS_IN_RUN = True      # run() replays corpus/C16 itself (first), through the full tie
 EX = Path("/repo/examples")
 ENGINES = ("gromacs", "cp2k", "lammps", "ase", "turtlemd")
 EXT = {"gromacs": "g96", "cp2k": "xyz", "lammps": "lammpstrj", "ase": "traj", "turtlemd": "xyz"}
@@ -145,8 +146,10 @@ def _build_engine(mods, work: Path, case):
     if d.exists():
         shutil.rmtree(d)
     if eng == "gromacs":
-        shutil.copytree(EX / "gromacs/H2/gromacs_input", d)
-        e = mods["GromacsEngine"]("echo", d.resolve(), 0, 0, T, masses=list(case["masses"]), infretis_genvel=True)
+        d.mkdir()      # only the three inputs (other checks run engines inside the example dir concurrently)
+        for fn in ("conf.g96", "grompp.mdp", "topol.top"):
+            shutil.copy(EX / "gromacs/H2/gromacs_input" / fn, d / fn)
+        e = mods["GromacsEngine"]("echo", d.resolve(), 0, 0, T, masses=masses_arg(case), infretis_genvel=True)
     elif eng == "lammps":
         d.mkdir()
         shutil.copy(EX / "lammps/H2/lammps_input/lammps.input", d / "lammps.input")
@@ -169,7 +172,7 @@ def _build_engine(mods, work: Path, case):
         cfg = tomli.loads((EX / "turtlemd/H2/infretis.toml").read_text())
         cfg["engine"]["temperature"] = T
         cfg["engine"]["boltzmann"] = TURTLE_KB
-        cfg["engine"]["particles"] = {"mass": list(case["masses"]), "name": ["H"] * n,
+        cfg["engine"]["particles"] = {"mass": masses_arg(case), "name": ["H"] * n,
                                       "pos": [[0.3 * i, 0.0, 0.0] for i in range(n)]}
         e = mods["create_engine"](cfg)
     elif eng == "ase":
@@ -399,6 +402,22 @@ def cols(a):
     return " ".join([str(a.shape[1])] + [lst(list(a[:, j]), frac_token) for j in range(a.shape[1])])
 
 
+INT_MASS_POOL = (1, 2, 16, 72, 12, 35)
+USER_MASS_ENGINES = ("gromacs", "turtlemd")   # `mass` built with np.reshape from the user's toml list
+
+
+def masses_arg(case):
+    """the mass list as the user's toml would give it: floats, Python ints, or numpy int64 scalars.
+    (GROMACS `masses=[..]` and TurtleMD `particles.mass` go through np.reshape, so an all-integer list
+    gives an *integer-typed* mass array; CP2K/LAMMPS/ASE masses come from files and are always floats.)"""
+    kind = case.get("mass_dtype", "float")
+    if kind == "int":
+        return [int(m) for m in case["masses"]]
+    if kind == "npint64":
+        return [np.int64(m) for m in case["masses"]]
+    return list(case["masses"])
+
+
 def masses_as_given(case):
     if case["engine"] == "cp2k":
         from infretis.classes.engines.engineparts import PERIODIC_TABLE
@@ -455,7 +474,7 @@ def written_abs_tol(eng):
 
 
 # ------------------------------------------------------------------ case generation
-def gen_case(rng, eng, n, T, zm, kind):
+def gen_case(rng, eng, n, T, zm, kind, mass_dtype=None):
     q = lambda lo, hi: rng.randint(lo * 16, hi * 16) / 16.0  # noqa: E731  (dyadic, ≤ 4 decimals)
     case = {"engine": eng, "n": n, "T": T, "zm": zm, "idx": rng.randint(0, 1), "kind": kind}
     case["pos"] = [[q(0, 9), q(0, 9), q(0, 9)] for _ in range(n)]
@@ -477,6 +496,14 @@ def gen_case(rng, eng, n, T, zm, kind):
     else:
         case["masses"] = [rng.choice(MASS_POOL) if rng.random() < 0.6 else round(rng.uniform(0.5, 250.0), 6)
                           for _ in range(n)]
+    if eng in USER_MASS_ENGINES:
+        if mass_dtype is None and rng.random() < 0.25:
+            mass_dtype = rng.choice(("int", "npint64"))
+        if mass_dtype in ("int", "npint64"):
+            case["mass_dtype"] = mass_dtype
+            case["masses"] = [rng.choice(INT_MASS_POOL) for _ in range(n)]
+            if all(m == 1 for m in case["masses"]):
+                case["masses"][0] = 16
     if eng == "turtlemd":
         case["names"] = [rng.choice(("H", "Ar", "X")) for _ in range(n)]
         case["box"] = None if rng.random() < 0.25 else [q(5, 40), q(5, 40), q(5, 40)]
@@ -513,6 +540,12 @@ def cases_for(ctx):
                         kinds += ["zero-old-vel"] + (["zero-draw"] if n == 2 else [])
                     for kind in kinds:
                         out.append(gen_case(rng, eng, n, T, zm, kind))
+    # integer-typed mass arrays (the user writes `mass = [2, 16]`): the result must not depend on the dtype
+    for eng in USER_MASS_ENGINES:
+        for md in ("int", "npint64"):
+            for n in (2, 4):
+                for zm in (None, False, True):
+                    out.append(gen_case(rng, eng, n, 300, zm, "plain", mass_dtype=md))
     extra = 40 if ctx.quick else 600
     for _ in range(extra):
         eng = rng.choice(ENGINES)
@@ -877,14 +910,14 @@ class Tripwire:
             setattr(mod, name, orig)
 
 
-def _c07_engine(mods, work, eng, T, n, rng, integrator=None):
-    """build one engine for the C07 runs (ASE / TurtleMD with the requested integrator)"""
+def _c07_engine(mods, work, case, integrator=None):
+    """build one engine for the C07 runs (ASE / TurtleMD with the requested integrator) for `case`"""
     import contextlib
     import io
     import tomli
-    case = gen_case(rng, eng, n, T, False, "plain")
+    eng, T, n = case["engine"], case["T"], case["n"]
     if integrator is None:
-        return build_engine(mods, work, case), case
+        return build_engine(mods, work, case)
     with contextlib.redirect_stdout(io.StringIO()):
         if eng == "ase":
             cfg = tomli.loads((EX / "ase/H2/infretis0.toml").read_text())
@@ -896,7 +929,7 @@ def _c07_engine(mods, work, eng, T, n, rng, integrator=None):
             cfg = tomli.loads((EX / "turtlemd/H2/infretis.toml").read_text())
             cfg["engine"]["temperature"] = T
             cfg["engine"]["boltzmann"] = TURTLE_KB
-            cfg["engine"]["particles"] = {"mass": list(case["masses"]), "name": ["H"] * n,
+            cfg["engine"]["particles"] = {"mass": masses_arg(case), "name": ["H"] * n,
                                           "pos": [[0.3 * i, 0.0, 0.0] for i in range(n)]}
             if integrator == "velocityverlet":
                 cfg["engine"]["integrator"] = {"class": "VelocityVerlet", "settings": {}}
@@ -907,23 +940,113 @@ def _c07_engine(mods, work, eng, T, n, rng, integrator=None):
                 cfg["engine"]["integrator"] = {"class": "LangevinInertia",
                                                "settings": {"gamma": 10, "beta": 1.0 / (TURTLE_KB * T)}}
             e = mods["create_engine"](cfg)
-        return _finish_engine(e, work, eng), case
+        return _finish_engine(e, work, eng)
+
+
+def _gen_state(gen):
+    st = gen._g.bit_generator.state
+    return (st["state"]["state"], st["state"]["inc"], st.get("has_uint32"), st.get("uinteger"))
+
+
+def _c07_job(mods, e, gen, case, src, zm, do_prop, integ):
+    """one job on engine object `e` whose stream is `gen` (as select_shoot does: engine.rgen = pens['rgen-eng']):
+    modify_velocities and, if `do_prop`, a short propagate — both under a tripwire.  Returns what was observed."""
+    import warnings
+    from infretis.classes.path import Path as InfPath
+    eng = case["engine"]
+
+    class _Ord:
+        def calculate(self, system):
+            return [0.5]
+
+    e.rgen = gen
+    e.order_function = _Ord()
+    out = {"mv_err": None, "prop_err": None, "seeds_given": [], "lmp": {}, "traj": None, "path_len": None}
+    s = mods["System"]()
+    s.set_pos((str(src), 0 if eng == "gromacs" else case["idx"]))
+    s.ekin = 1.0
+    s.order = [0.5]
+    n0 = len(gen.log)
+    with Tripwire() as tw:
+        try:
+            e.modify_velocities(s, {"zero_momentum": zm})
+        except Exception as ex:  # noqa: BLE001
+            out["mv_err"] = err_kind(ex) + ":" + str(ex)[:120]
+    out["mv_tw"] = tw
+    out["mv_draws"] = len(gen.log) - n0
+    out["genvel"] = None if out["mv_err"] else parse_frame(eng, s.config[0], case["n"])["vel"]
+    if not do_prop or out["mv_err"]:
+        out["state"] = _gen_state(gen)
+        return out
+    n1 = len(gen.log)
+    undo = []
+    if eng == "turtlemd":
+        orig_int = e.integrator
+
+        def rec_int(*a, _o=orig_int, **k):
+            out["seeds_given"].append(k.get("seed", "absent"))
+            return _o(*a, **k)
+        e.integrator = rec_int
+        undo.append(lambda: setattr(e, "integrator", orig_int))
+    if eng == "lammps":
+        import infretis.classes.engines.lammps as lm
+        orig_w = lm.write_for_run
+
+        def rec_w(infile, outfile, input_settings=None, _o=orig_w):
+            out["lmp"]["seed"] = (input_settings or {}).get("infretis_seed")
+            r = _o(infile, outfile, input_settings)
+            out["lmp"]["text"] = Path(outfile).read_text()
+            return r
+        lm.write_for_run = rec_w
+        undo.append(lambda: setattr(lm, "write_for_run", orig_w))
+        e.lmp = ["false"]
+        e.sleep = 0.001
+    path = InfPath(maxlen=4)
+    ens_set = {"interfaces": [0.0, 0.25, 1.0], "ens_name": "c07", "tis_set": {}}
+    before = set(os.listdir(e.exe_dir))
+    with Tripwire() as tw2, warnings.catch_warnings():
+        warnings.simplefilter("ignore")
+        try:
+            e.propagate(path, ens_set, s, reverse=False)
+        except Exception as ex:  # noqa: BLE001
+            out["prop_err"] = err_kind(ex) + ":" + str(ex)[:160]
+    for u in undo:
+        u()
+    out["prop_tw"] = tw2
+    out["prop_log"] = gen.log[n1:]
+    out["ints"] = [int(l["result"]) for l in out["prop_log"] if l["method"] == "integers"]
+    out["path_len"] = path.length
+    # the trajectory this job produced (content only; names carry pid and a global counter)
+    new = sorted(f for f in set(os.listdir(e.exe_dir)) - before if "trajF" in f and not f.startswith("msg"))
+    if new and eng == "ase":
+        from ase.io.trajectory import Trajectory
+        tr = Trajectory(os.path.join(e.exe_dir, new[0]))
+        out["traj"] = [(a.positions.tobytes(), a.get_momenta().tobytes()) for a in tr]
+        tr.close()
+    elif new:
+        out["traj"] = Path(os.path.join(e.exe_dir, new[0])).read_bytes()
+    out["state"] = _gen_state(gen)
+    return out
 
 
 def run_c07_engine_streams(ctx):
     """C07, engine half: every random number drawn in-process for a move — velocity draws, seeds handed
     to stochastic integrators — comes from the job's engine stream (`engine.rgen`), in every engine class.
 
-    For each engine class: `modify_velocities`, and where the engine integrates in-process or hands a seed to
-    the MD program (ASE VelocityVerlet/Langevin, TurtleMD VelocityVerlet/LangevinInertia/LangevinOverdamped,
-    LAMMPS `infretis_seed`) a short `propagate`, with a logging generator as `engine.rgen` and a tripwire on
-    numpy's global random functions, the `random` module and fresh `default_rng` constructions.
-    Any global draw, any generator seeded by something that `engine.rgen` did not return, or a seed in the
-    LAMMPS input that `engine.rgen` did not return is `C07:<engine>:draw-outside-job-stream`.
+    For each engine class TWO successive jobs run on the SAME engine object, the first with logging
+    generator A, the second with B (as select_shoot does: `engine.rgen = pens["rgen-eng"]`), each job =
+    `modify_velocities` and, where the engine integrates in-process or hands a seed to the MD program (ASE
+    VelocityVerlet/Langevin, TurtleMD VelocityVerlet/LangevinInertia/LangevinOverdamped, LAMMPS
+    `infretis_seed`), a short `propagate`; all under a tripwire on numpy's global random functions, the
+    `random` module and fresh `default_rng` constructions.  Then job 2 is repeated on a FRESH engine object
+    with a generator in B's initial state.  Each of the following is `C07:<engine>:draw-outside-job-stream`:
+      a global draw; a generator seeded by something the job's rgen did not return; a LAMMPS/TurtleMD seed that
+      the job's rgen did not return; during job 2 a draw that advances A (a generator kept from job 1), or
+      job 2 differing from the same job on the fresh engine (velocities, trajectory, seeds, final state of B):
+      "a job's streams are a function of the seed and the job's ordinal only".
     Called from harness/props/c07.py (failures are ctx.fail there) and from C16's own run (failures are
     recorded in the histogram under c07_ keys and in the evidence, not raised)."""
     mods = _imports()
-    from infretis.classes.path import Path as InfPath
     raise_fail = ctx.prop == "C07"
     work = Path(tempfile.mkdtemp(prefix="c07eng-", dir="/var/tmp"))
     cwd = os.getcwd()
@@ -934,7 +1057,7 @@ def run_c07_engine_streams(ctx):
             ("turtlemd", "langevinoverdamped", True)]
     temps = (300,) if ctx.quick else (300, 77.5, 1200)
 
-    def report(eng, sig_detail, what, replay):
+    def report(eng, what, replay):
         sig = f"C07:{eng}:draw-outside-job-stream"
         ctx.hit(f"c07_fail:{sig}")
         if raise_fail:
@@ -942,9 +1065,50 @@ def run_c07_engine_streams(ctx):
         else:
             ctx.extra.setdefault("c07_engine_stream_failures", []).append({"signature": sig, "what": what, **replay})
 
-    class _Ord:
-        def calculate(self, system):
-            return [0.5]
+    def check_job(label, eng, integ, tag, job, rep):
+        """the single-job predicates"""
+        for phase, tw in (("modify_velocities", job["mv_tw"]), ("propagate", job.get("prop_tw"))):
+            if tw is None:
+                continue
+            ints = job.get("ints", []) if phase == "propagate" else []
+            for g in tw.global_calls:
+                report(eng, f"{label} {tag}: {phase} called {g['fn']} at {g['where']} (global state), not engine.rgen",
+                       dict(rep, job=tag, phase=phase, call=g))
+            for g in tw.new_generators:
+                ok = g["seed"] is not None and np.ndim(g["seed"]) == 0 and any(int(g["seed"]) == x for x in ints)
+                if not ok:
+                    report(eng, f"{label} {tag}: {phase} built {g['fn']}(seed={g['seed']!r}) at {g['where']}: the seed is "
+                           f"not a value drawn from the job's rgen {ints}",
+                           dict(rep, job=tag, phase=phase, call={k: str(v) for k, v in g.items()}))
+        if not job["mv_err"] and job["mv_draws"] == 0:
+            report(eng, f"{label} {tag}: modify_velocities made no draw on the job's rgen", dict(rep, job=tag))
+        if job.get("prop_tw") is None:
+            return
+        ints = job["ints"]
+        if eng == "turtlemd":
+            for sd in job["seeds_given"]:
+                if sd == "absent" or not any(int(sd) == x for x in ints):
+                    report(eng, f"{label} {tag}: integrator seed {sd!r} is not a value drawn from the job's rgen {ints}",
+                           dict(rep, job=tag, seed=str(sd)))
+            if not job["seeds_given"] and not job["prop_err"]:
+                report(eng, f"{label} {tag}: the integrator was not built through engine.integrator", dict(rep, job=tag))
+        if eng == "lammps":
+            sd = job["lmp"].get("seed")
+            line = [l for l in job["lmp"].get("text", "").split("\n") if l.split()[:3] == ["variable", "seed", "index"]]
+            if sd is None or not any(int(sd) == x for x in ints):
+                report(eng, f"lammps {tag}: infretis_seed {sd!r} is not a value drawn from the job's rgen {ints}",
+                       dict(rep, job=tag, seed=str(sd)))
+            elif not line or line[0].split()[3] != str(int(sd)):
+                report(eng, f"lammps {tag}: run.inp carries {line} instead of the drawn seed {sd}",
+                       dict(rep, job=tag, seed=str(sd), line=line))
+        if eng == "ase" and integ == "langevin" and not job["prop_err"]:
+            if not any(l["method"] == "standard_normal" for l in job["prop_log"]):
+                report(eng, f"ase/langevin {tag}: the thermostat noise was not drawn from the job's rgen", dict(rep, job=tag))
+
+    def same(a, b):
+        if isinstance(a, np.ndarray) or isinstance(b, np.ndarray):
+            return a is not None and b is not None and np.array_equal(a, b)
+        return a == b
 
     try:
         os.chdir(work)
@@ -952,127 +1116,66 @@ def run_c07_engine_streams(ctx):
             for T in temps:
                 for zm in (False, True):
                     label = eng + ("" if integ is None else f"/{integ}")
+                    case = gen_case(ctx.rng, eng, 3, T, False, "plain")
+                    seed_a, seed_b = ctx.rng.randrange(1 << 30), ctx.rng.randrange(1 << 30)
+                    rep = {"engine": eng, "integrator": integ, "T": T, "zero_momentum": zm, "rgen_seed_job1": seed_a,
+                           "rgen_seed_job2": seed_b, "case": {k: v for k, v in case.items() if not k.startswith("_")}}
                     try:
-                        e, case = _c07_engine(mods, work, eng, T, 3, ctx.rng, integ)
+                        e = _c07_engine(mods, work, case, integ)
                     except Exception as ex:  # noqa: BLE001
                         ctx.hit(f"c07_build_error:{label}:{err_kind(ex)}")
                         continue
                     src = work / f"src_{eng}.{EXT[eng]}"
                     write_source(case, src)
-                    seed = ctx.rng.randrange(1 << 30)
-                    gen = LoggingGen(seed)
-                    e.rgen = gen
-                    e.order_function = _Ord()
-                    rep = {"engine": eng, "integrator": integ, "T": T, "zero_momentum": zm, "rgen_seed": seed,
-                           "case": {k: v for k, v in case.items() if not k.startswith("_")}}
-                    # ---- (A) velocity regeneration
-                    s = mods["System"]()
-                    s.set_pos((str(src), 0 if eng == "gromacs" else case["idx"]))
-                    s.ekin = 1.0
-                    s.order = [0.5]
-                    with Tripwire() as tw:
-                        try:
-                            e.modify_velocities(s, {"zero_momentum": zm})
-                            err = None
-                        except Exception as ex:  # noqa: BLE001
-                            err = err_kind(ex) + ":" + str(ex)[:120]
-                    ctx.count(1, c07_engine=label)
-                    ndraw = len(gen.log)
-                    ctx.hit(f"c07_modify_velocities:{label}:draws_on_rgen={ndraw}")
-                    if err:
-                        ctx.hit(f"c07_modify_error:{label}:{err.split(':')[1]}")
-                    for g in tw.global_calls:
-                        report(eng, "global", f"{label}.modify_velocities called {g['fn']} at {g['where']} "
-                               "(global state), not engine.rgen", dict(rep, phase="modify_velocities", call=g))
-                    for g in tw.new_generators:
-                        report(eng, "newgen", f"{label}.modify_velocities built a fresh generator {g['fn']}(seed={g['seed']!r}) "
-                               f"at {g['where']}", dict(rep, phase="modify_velocities", call={k: str(v) for k, v in g.items()}))
-                    if not err and ndraw == 0:
-                        report(eng, "nodraw", f"{label}.modify_velocities made no draw on engine.rgen although the "
-                               "velocities changed", dict(rep, phase="modify_velocities"))
-                    results.append({"engine": label, "phase": "modify_velocities", "T": T, "zm": zm, "rgen_draws": ndraw,
-                                    "global_calls": len(tw.global_calls), "fresh_generators": len(tw.new_generators)})
-                    if not do_prop or err:
+                    gen_a, gen_b = LoggingGen(seed_a), LoggingGen(seed_b)
+                    # ---- job 1 (stream A) and job 2 (stream B) on the same engine object
+                    job1 = _c07_job(mods, e, gen_a, case, src, zm, do_prop, integ)
+                    a_state, a_calls = _gen_state(gen_a), len(gen_a.log)
+                    job2 = _c07_job(mods, e, gen_b, case, src, zm, do_prop, integ)
+                    ctx.count(2, c07_engine=label)
+                    check_job(label, eng, integ, "job 1", job1, rep)
+                    if _gen_state(gen_a) != a_state or len(gen_a.log) != a_calls:
+                        kept = [l["method"] for l in gen_a.log[a_calls:]]
+                        report(eng, f"{label}: during job 2 (engine.rgen = B) the engine drew {len(kept)} times "
+                               f"({sorted(set(kept))}) from job 1's generator A, which it kept",
+                               dict(rep, job="job 2", kept_calls=kept[:10]))
+                    check_job(label, eng, integ, "job 2 (same engine object)", job2, rep)
+                    # ---- job 2 again, on a fresh engine object with a generator in B's initial state
+                    try:
+                        e2 = _c07_engine(mods, work, case, integ)
+                    except Exception as ex:  # noqa: BLE001
+                        ctx.hit(f"c07_build_error:{label}:{err_kind(ex)}")
                         continue
-                    # ---- (B) a short propagation from the regenerated point
-                    gen.log.clear()
-                    seeds_given = []
-                    lmp_seen = {}
-                    undo = []
-                    if eng == "turtlemd":
-                        orig_int = e.integrator
-
-                        def rec_int(*a, _o=orig_int, **k):
-                            seeds_given.append(k.get("seed", "absent"))
-                            return _o(*a, **k)
-                        e.integrator = rec_int
-                    if eng == "lammps":
-                        import infretis.classes.engines.lammps as lm
-                        orig_w = lm.write_for_run
-
-                        def rec_w(infile, outfile, input_settings=None, _o=orig_w):
-                            lmp_seen["seed"] = (input_settings or {}).get("infretis_seed")
-                            r = _o(infile, outfile, input_settings)
-                            lmp_seen["text"] = Path(outfile).read_text()
-                            return r
-                        lm.write_for_run = rec_w
-                        undo.append(lambda: setattr(lm, "write_for_run", orig_w))
-                        e.lmp = ["false"]
-                        e.sleep = 0.001
-                    path = InfPath(maxlen=4)
-                    ens_set = {"interfaces": [0.0, 0.25, 1.0], "ens_name": "c07", "tis_set": {}}
-                    perr = None
-                    import warnings
-                    with Tripwire() as tw2, warnings.catch_warnings():
-                        warnings.simplefilter("ignore")
-                        try:
-                            e.propagate(path, ens_set, s, reverse=False)
-                        except Exception as ex:  # noqa: BLE001
-                            perr = err_kind(ex) + ":" + str(ex)[:160]
-                    for u in undo:
-                        u()
-                    ctx.count(1, c07_engine=label + ":propagate")
-                    ints = [l["result"] for l in gen.log if l["method"] == "integers"]
-                    ctx.hit(f"c07_propagate:{label}:rgen_calls={sorted(set(l['method'] for l in gen.log))}")
-                    if perr and eng != "lammps":
-                        ctx.hit(f"c07_propagate_error:{label}:{perr[:80]}")
-                    rep2 = dict(rep, phase="propagate", rgen_integers=[int(x) for x in ints])
-                    for g in tw2.global_calls:
-                        report(eng, "global", f"{label}.propagate called {g['fn']} at {g['where']} (global state), "
-                               "not engine.rgen", dict(rep2, call=g))
-                    for g in tw2.new_generators:
-                        ok = g["seed"] is not None and any(np.ndim(g["seed"]) == 0 and int(g["seed"]) == int(x) for x in ints)
-                        if not ok:
-                            report(eng, "newgen", f"{label}.propagate built {g['fn']}(seed={g['seed']!r}) at {g['where']}: "
-                                   f"the seed is not a value drawn from engine.rgen {[int(x) for x in ints]}",
-                                   dict(rep2, call={k: str(v) for k, v in g.items()}))
-                    if eng == "turtlemd":
-                        for sd in seeds_given:
-                            if sd == "absent" or not any(int(sd) == int(x) for x in ints):
-                                report(eng, "seed", f"{label}: integrator seed {sd!r} is not a value drawn from engine.rgen "
-                                       f"{[int(x) for x in ints]}", dict(rep2, seed=str(sd)))
-                        if not seeds_given and not perr:
-                            report(eng, "seed", f"{label}: the integrator was built without going through engine.integrator",
-                                   rep2)
-                    if eng == "lammps":
-                        sd = lmp_seen.get("seed")
-                        line = [l for l in lmp_seen.get("text", "").split("\n") if l.split()[:3] == ["variable", "seed", "index"]]
-                        if sd is None or not any(int(sd) == int(x) for x in ints):
-                            report(eng, "seed", f"lammps: infretis_seed {sd!r} is not a value drawn from engine.rgen "
-                                   f"{[int(x) for x in ints]}", dict(rep2, seed=str(sd)))
-                        elif not line or line[0].split()[3] != str(int(sd)):
-                            report(eng, "seed", f"lammps: run.inp carries {line} instead of the drawn seed {sd}",
-                                   dict(rep2, seed=str(sd), line=line))
-                    if eng == "ase" and integ == "langevin" and not perr:
-                        if not any(l["method"] == "standard_normal" for l in gen.log):
-                            report(eng, "nodraw", "ase/langevin: the thermostat noise was not drawn from engine.rgen",
-                                   rep2)
-                    results.append({"engine": label, "phase": "propagate", "T": T, "zm": zm,
-                                    "rgen_calls": len(gen.log), "rgen_integers": [int(x) for x in ints],
-                                    "seeds_handed_on": [str(x) for x in seeds_given] + ([str(lmp_seen.get("seed"))] if eng == "lammps" else []),
-                                    "global_calls": len(tw2.global_calls), "fresh_generators": len(tw2.new_generators),
-                                    "path_len": path.length, "error": perr})
-        ctx.extra["c07_engine_streams"] = results if len(results) <= 40 else results[:40]
+                    write_source(case, src)
+                    gen_b2 = LoggingGen(seed_b)
+                    job2f = _c07_job(mods, e2, gen_b2, case, src, zm, do_prop, integ)
+                    ctx.count(1, c07_engine=label + ":fresh")
+                    diffs = [k for k in ("genvel", "traj", "state", "seeds_given", "path_len")
+                             if not same(job2.get(k), job2f.get(k))]
+                    if job2["lmp"].get("seed") != job2f["lmp"].get("seed"):
+                        diffs.append("lammps seed")
+                    if (job2["mv_err"] is None) != (job2f["mv_err"] is None) or \
+                            (job2["prop_err"] is None) != (job2f["prop_err"] is None):
+                        diffs.append("error")
+                    if diffs:
+                        report(eng, f"{label}: the second job on a used engine object differs from the same job (same "
+                               f"stream B) on a fresh engine object in {diffs}: the result is not a function of the "
+                               "job's stream only", dict(rep, job="job 2", differs=diffs))
+                    ctx.hit(f"c07_modify_velocities:{label}:draws_on_rgen={job1['mv_draws']},{job2['mv_draws']}")
+                    if do_prop:
+                        ctx.hit(f"c07_propagate:{label}:rgen_calls="
+                                f"{sorted(set(l['method'] for l in job2.get('prop_log', [])))}")
+                        if job2["prop_err"] and eng != "lammps":
+                            ctx.hit(f"c07_propagate_error:{label}:{job2['prop_err'][:80]}")
+                    results.append({"engine": label, "T": T, "zm": zm,
+                                    "mv_draws": [job1["mv_draws"], job2["mv_draws"], job2f["mv_draws"]],
+                                    "propagate_rgen_calls": [len(j.get("prop_log", [])) for j in (job1, job2, job2f)],
+                                    "seeds_handed_on": [[str(x) for x in j["seeds_given"]] + (
+                                        [str(j["lmp"].get("seed"))] if eng == "lammps" and do_prop else [])
+                                        for j in (job1, job2, job2f)],
+                                    "job2_equals_fresh": not diffs, "A_untouched_in_job2": _gen_state(gen_a) == a_state,
+                                    "path_len": job2["path_len"], "error": job2["prop_err"]})
+        ctx.extra["c07_engine_streams"] = results[:40]
         ctx.assumptions += [
             "C07 engine half: GROMACS's own gen_vel (gen_seed = -1, chosen by gmx) and seeds inside user-supplied MD "
             "templates (ld_seed, cp2k thermostat seeds) are outside the property by its own words; CP2K/GROMACS "
@@ -1113,6 +1216,7 @@ def run(ctx):
             ctx.count(1 + (1 if with_prepare else 0), engine=eng)
             ctx.hit(f"zm={case['zm']}")
             ctx.hit(f"kind={case['kind']}")
+            ctx.hit(f"mass_dtype={case.get('mass_dtype', 'float')}")
             if not obs.get("err"):
                 ctx.hit("dek=inf" if math.isinf(obs["dek"]) else "dek=finite")
             if case["kind"] != "zero-draw":
@@ -1153,6 +1257,9 @@ def run(ctx):
             "written velocities are compared to 6e-10 absolute (9-decimal formats) + 1e-9 relative",
             "CODATA-2018 values for E_h and m_e/u (measured constants), SI-2019 exact values for k_B, N_A, e, cal = 4.184 J",
             "GROMACS's own gen_vel path (needs gmx) and the MD programs themselves are out of scope; masses > 0",
+            "the model is over Rat: the code must not depend on the numeric dtype of the mass array — the tie feeds "
+            "float, Python-int and numpy-int64 mass lists to the engines whose masses come from the user's toml "
+            "(GROMACS infretis_genvel, TurtleMD); CP2K/LAMMPS/ASE masses are read from files as floats",
             "engines are constructed offline as in test/engines/test_velocity_functions.py (gmx = 'echo')",
         ]
     finally:
@@ -1174,6 +1281,7 @@ def replay(ctx, obj):
     cwd = os.getcwd()
     try:
         os.chdir(work)
+        saved = (ctx._driver_ok, ctx._findings)
         ctx._driver_ok = False
         ctx._findings = []          # evaluate against the property itself, known or not
         if r.get("check") == "reproducibility":
@@ -1184,5 +1292,7 @@ def replay(ctx, obj):
         print("signatures failing now:", sorted(set(failed)), "| recorded:", obj.get("signature"))
         return 1 if obj.get("signature") in failed or (failed and obj.get("signature") is None) else 0
     finally:
+        if "saved" in locals():
+            ctx._driver_ok, ctx._findings = saved
         os.chdir(cwd)
         shutil.rmtree(work, ignore_errors=True)
